@@ -286,7 +286,11 @@ def cases(draw):
             elif kind == "text":
                 frames.append({"fin": 1, "op": rm.TEXT, "p": draw(rx.utf8_text)})
             elif kind == "binary":
-                frames.append({"fin": 1, "op": rm.BINARY, "p": draw(st.binary(max_size=12))})
+                if draw(st.integers(0, 7)) == 0:
+                    # larger than one read from the transport: what follows it in the same segment must not wait
+                    frames.append({"fin": 1, "op": rm.BINARY, "p": {"rep": draw(st.binary(min_size=1, max_size=3)), "n": draw(st.sampled_from([16384, 16385, 20480, 40000, 70000]))}})
+                else:
+                    frames.append({"fin": 1, "op": rm.BINARY, "p": draw(st.binary(max_size=12))})
             elif kind == "frag":
                 full = draw(rx.utf8_text) + draw(st.sampled_from([b"", "é€😀".encode(), "€".encode()]))
                 k = draw(st.integers(0, len(full)))
